@@ -365,6 +365,17 @@ func (c *conc) bytesOf(kind string, d *document) []byte {
 	case "null":
 		body = "null"
 	case "garbage":
+		if r.Intn(2) == 0 { // arbitrary bytes
+			b := make([]byte, 1+r.Intn(64))
+			for i := range b {
+				b[i] = byte(r.Intn(256))
+			}
+			if b[0] == '{' || b[0] == ' ' {
+				b[0] = '}'
+			}
+			body = string(b)
+			break
+		}
 		body = []string{"<html><body>502 Bad Gateway</body></html>", "\x00\x01\x02\xff\xfe", "{'Sid':'x'}", "Sid=x&Version=1.3", "{Sid:\"x\"}", "\"", "{{}}", "nul", "{\"Status\"}", "v=0\r\no=- 1 2 IN IP4 1.2.3.4\r\n"}[r.Intn(10)]
 	case "truncated":
 		body = obj[:1+r.Intn(len(obj)-1)]
